@@ -328,7 +328,7 @@ void MEDDLY::pregen_relation::unionLevels()
     apply(UNION, u, events[k], u);
     events[k].set(0);
   }
-  events[u.getLevel()] = u;
+  events[ABS(u.getLevel())] = u;
 }
 
 
